@@ -143,8 +143,11 @@ def run_given(strategy, body: Callable[[Any], None], *, seed: int,
     """Run `body(case)` over `max_examples` generated cases.  `body` must not
     raise for property failures (it records them); an exception escaping it is
     a harness error."""
+    import warnings
     import hypothesis
     from hypothesis import HealthCheck, Phase, given, settings
+    from hypothesis.errors import HypothesisWarning
+    warnings.filterwarnings('ignore', category=HypothesisWarning)
 
     @hypothesis.seed(seed)
     @settings(max_examples=max_examples, database=None, deadline=None,
